@@ -388,3 +388,62 @@ eqh!(k11_eq_clean_sum_n_b, b"nb+", true);
 // histories "sub-value of a larger value" and "Bit Machine output"
 eqh!(k11_eq_dirty_sum_b_y, b"by+", false);
 eqh!(k11_eq_dirty_bit, b"b", false);
+
+/// Two values of a padding-free type whose width is a multiple of 8, cut out of
+/// ONE shared buffer at two independent bit offsets (siblings of one parent:
+/// what `as_product` + `to_value` produce). There is no slack and no padding,
+/// so equality must be exactly equality of the bits.
+fn eq_shared_core(code: &'static [u8]) {
+    let t = parse(code);
+    let ty = build(code);
+    let w = t.w[t.root];
+    let d: [u8; 4] = kani::any();
+    let a: Arc<[u8]> = Arc::from(&d[..]);
+    let oa: usize = kani::any();
+    let ob: usize = kani::any();
+    kani::assume(oa <= 16 && ob <= 16);
+    kani::assume(oa + w <= 32 && ob + w <= 32);
+    let va = hooks::value_from_raw_parts(Arc::clone(&a), oa, Arc::clone(&ty));
+    let vb = hooks::value_from_raw_parts(Arc::clone(&a), ob, Arc::clone(&ty));
+    let mut same = true;
+    let mut i = 0;
+    while i < 16 {
+        if i < w && bit(&d, oa + i) != bit(&d, ob + i) {
+            same = false;
+        }
+        i += 1;
+    }
+    assert!((va == vb) == same, "== of two sub-values of one buffer is not equality of their bits");
+    let ord = va.cmp(&vb);
+    assert!((ord == std::cmp::Ordering::Equal) == same, "cmp() == Equal is not equivalent to == for sub-values of one buffer");
+    assert!(vb.cmp(&va) == ord.reverse(), "cmp is not antisymmetric");
+    if same {
+        let (ha, hb) = (hash_trace(&va), hash_trace(&vb));
+        assert!(ha.n == hb.n, "equal values feed different amounts of data to the hasher");
+        let q: usize = kani::any();
+        kani::assume(q < 96 && q < ha.n);
+        assert!(ha.buf[q] == hb.buf[q], "equal values hash differently");
+    }
+    kani::cover!(same && oa != ob, "equal siblings at different offsets");
+    kani::cover!(!same && oa % 8 != ob % 8, "different siblings at different alignments");
+    std::mem::forget(va);
+    std::mem::forget(vb);
+    std::mem::forget(a);
+    std::mem::forget(ty);
+}
+
+macro_rules! eqs {
+    ($name:ident, $code:expr) => {
+        #[kani::proof]
+        #[kani::unwind(34)]
+        #[kani::stub(simplicity::types::precomputed::nth_power_of_2, crate::vals::stub_nth_power_of_2)]
+        #[kani::stub(simplicity::Tmr::sum, crate::hcons::stub_tmr_sum)]
+        #[kani::stub(simplicity::Tmr::product, crate::hcons::stub_tmr_product)]
+        #[kani::stub(std::sync::Arc::drop_slow, crate::hcons::stub_arc_drop_slow)]
+        fn $name() {
+            eq_shared_core($code)
+        }
+    };
+}
+eqs!(k11_eq_shared_byte, b"y");
+eqs!(k11_eq_shared_u16, b"yy*");
